@@ -163,9 +163,17 @@ def run_model(ctx, cases, fuel=20000):
 
 # ------------------------------------------------------------------------------------------ judging
 def hawk_bad_status(r):
-    st = C.classify_rc(r["rc"], r["err"])
-    if st in ("ASAN", "UBSAN", "TIMEOUT(hang)") or st.startswith("SIGNAL"):
-        return st
+    """sanitizer report / signal / hang of the hawk run.  Decided from the report text, not from the exit status: the
+    sanitizers' exit codes 66/67 are also legitimate awk exit statuses (`exit $NF` with $NF = "67k3")."""
+    err = r["err"]
+    if r["rc"] == -9:
+        return "TIMEOUT(hang)"
+    if "AddressSanitizer" in err or "LeakSanitizer" in err:
+        return "ASAN"
+    if "runtime error:" in err:
+        return "UBSAN"
+    if r["rc"] < 0:
+        return "SIGNAL%d" % (-r["rc"])
     return None
 
 
@@ -519,7 +527,8 @@ def exhaustive_cases(quick):
     """deterministic sets that mirror the theorems:
        * range_automaton_spec — one range rule over EVERY sequence of (begin?, end?) truth values up to length 3 (quick) / 5
        * driver_phases_*      — every placement of {no exit, bare exit, exit n} in BEGIN x main rule x END
-       * uninit_is_zero_and_empty — every comparison operator between an unset variable and 0, 1, "", "a", another unset one"""
+       * uninit_is_zero_and_empty — every comparison operator between an unset variable and 0, 1, "", "a", another unset one
+       * exhaustive_exit_in_function / exhaustive_refill — see there"""
     import itertools
     out = []
     recs = {(1, 1): "b e", (1, 0): "b x", (0, 1): "x e", (0, 0): "x x"}
@@ -528,10 +537,20 @@ def exhaustive_cases(quick):
     rule = dict(kind="rule", head=rng_b.txt + ", " + rng_e.txt, pat=G.sx("range", rng_b.sx, rng_e.sx),
                 stmts=[_st_print([G.var("NR"), G.field(G.num(0))])], sep="")
     endi = _item("end", [_st_print([G.strlit("n"), G.var("NR")])])
+    # the same range rule with an action that changes what the end pattern reads: both patterns are evaluated BEFORE
+    # the action of the record (patFires precedes the body in runRules)
+    rng_e2 = G.or_(rng_e, G.cmp_("ge", G.binop("add", G.var("c"), G.num(0)), G.num(2)))
+    rule2 = dict(kind="rule", head=rng_b.txt + ", " + rng_e2.txt, pat=G.sx("range", rng_b.sx, rng_e2.sx),
+                 stmts=[([G.incdec(False, True, G.var("c")).txt], G.sx("expr", G.incdec(False, True, G.var("c")).sx), False),
+                        _st_print([G.var("NR"), G.var("c")])], sep="")
     for n in range(0, (3 if quick else 5) + 1):
         for seq in itertools.product(sorted(recs), repeat=n):
             content = "".join(recs[t] + "\n" for t in seq)
             out.append(_mk([rule, endi], [("f1.txt", content)], {"range", "exhaustive-range"}))
+            if n >= 2:
+                half = n // 2       # also split over two files: the range state survives the file boundary
+                files = [("f1.txt", "".join(recs[t] + "\n" for t in seq[:half])), ("f2.txt", "".join(recs[t] + "\n" for t in seq[half:]))]
+                out.append(_mk([rule2, endi], files, {"range", "exhaustive-range", "exhaustive-range-action"}))
     opts = [None, "bare", 3]
 
     def ex(o):
@@ -552,6 +571,197 @@ def exhaustive_cases(quick):
     prints.append(_st_print([G.binop("add", G.var("x"), G.num(0)), G.cat(G.var("x"), G.strlit("")), G.builtin("length", [G.var("x")], "num"),
                              G.not_(G.var("x")), G.idx("A", [G.num(1)]), G.isin("A", [G.num(1)])]))
     out.append(_mk([_item("begin", prints)], [], {"exhaustive-uninit"}))
+    out += exhaustive_exit_in_function() + exhaustive_refill() + exhaustive_loops() + exhaustive_field_histories(quick)
+    out += exhaustive_stream_histories()
+    return out
+
+
+def exhaustive_stream_histories():
+    """output redirection: every sequence of three operations from {print > f, print >> f, printf > f, close(f)} on ONE
+    file name (then one more `print >> f`), the file contents compared at the end, the return values of close printed"""
+    import itertools
+    out = []
+    f = G.strlit("o1")
+
+    def op(k, tag):
+        if k == 0:
+            return (['print "%s" > "o1"' % tag], G.sx("print", G.sx("trunc", f.sx), G.strlit(tag).sx), False)
+        if k == 1:
+            return (['print "%s" >> "o1"' % tag], G.sx("print", G.sx("append", f.sx), G.strlit(tag).sx), False)
+        if k == 2:
+            return (['printf "%%s;", "%s" > "o1"' % tag], G.sx("printf", G.sx("trunc", f.sx), G.strlit("%s;").sx, G.strlit(tag).sx), False)
+        return _st_print([G.strlit("close"), G.close_(f)])
+    for seq in itertools.product(range(4), repeat=3):
+        body = [op(k, "t%d" % (i + 1)) for i, k in enumerate(seq)] + [op(1, "last")]
+        out.append(_mk([_item("begin", body)], [], {"exhaustive-stream-history", "redir", "close"}))
+    return out
+
+
+def exhaustive_field_histories(quick):
+    """fields and NF: every ordered pair (triple in the thorough tier, over a smaller alphabet) of record-modifying
+    operations — $k = v for k inside, at and beyond NF, NF = n shrinking / growing / unchanged, $0 = text — applied to
+    EVERY record of an input whose records get longer and shorter (state kept from one record to the next must not
+    leak), followed by a look at $0, NF and single fields"""
+    import itertools
+    nf = G.var("NF")
+
+    def ops():
+        return [G.assign("set", G.field(G.num(1)), G.strlit("Z")),
+                G.assign("set", G.field(G.num(3)), G.strlit("Y")),
+                G.assign("set", G.field(G.num(5)), G.strlit("X")),
+                G.assign("set", G.field(G.binop("add", nf, G.num(2))), G.strlit("W")),
+                G.assign("set", G.field(G.num(2)), G.strlit("")),
+                G.assign("set", nf, G.num(2)),
+                G.assign("set", nf, G.num(4)),
+                G.assign("set", nf, nf),
+                G.assign("set", G.field(G.num(0)), G.strlit("u vv"))]
+    content = "a bb ccc dddd eeeee\nx y\np q r\n\nk l m n o p\nz\n  lead trail  \n"
+    look = [_st_print([G.cat(G.cat(G.field(G.num(0)), G.strlit("|")), nf)]),
+            _st_print([G.cat(G.cat(G.cat(G.field(G.num(1)), G.strlit("|")), G.cat(G.field(G.num(3)), G.strlit("|"))), G.cat(G.field(G.num(4)), G.strlit("|"))),
+                       G.builtin("length", [], "num")])]
+    out = []
+    n = len(ops())
+    seqs = list(itertools.product(range(n), repeat=2))
+    if not quick:
+        seqs += list(itertools.product((2, 3, 5, 6, 7), repeat=3))
+    for seq in seqs:
+        body = [_st(ops()[k]) for k in seq] + look
+        c = _mk([_item("rule", body)], [("f1.txt", content)], {"exhaustive-field-history", "$=", "NF="})
+        out.append(c)
+    return out
+
+
+def exhaustive_loops():
+    """control flow: every loop form (for, while, do-while with a plain and with a side-effecting condition) x
+    {continue, break} x the iteration it happens in (first, middle, last — on the last one the loop condition is false
+    right after the `continue`), plus the same jump inside an inner loop of a two-level nest"""
+    import itertools
+    out = []
+    i, j = G.var("i"), G.var("j")
+
+    def jump(kind, v, k):
+        cnd = G.cmp_("eq", v, G.num(k))
+        return (["if (" + cnd.txt + ") {", "  " + kind, "}"], G.sx("if", cnd.sx, G.sx("blk", kind), G.sx("blk")), False)
+
+    def loop(form, v, body_pre, body_post):
+        """the loop runs v = 1..3; body_pre comes before the jump test position, body_post after"""
+        inc = _st(G.incdec(False, True, v))
+        lt3 = G.cmp_("lt", v, G.num(3))
+        if form == "for":
+            init, c, step = G.assign("set", v, G.num(1)), G.cmp_("le", v, G.num(3)), G.incdec(False, True, v)
+            body = body_pre + body_post
+            lines = ["for (" + init.txt + "; " + c.txt + "; " + step.txt + ") {"] + ["  " + l for st in body for l in st[0]] + ["}"]
+            return [(lines, G.sx("for", init.sx, c.sx, step.sx, G.sx("blk", *[st[1] for st in body])), False)]
+        body = [inc] + body_pre + body_post
+        init = _st(G.assign("set", v, G.num(0)))
+        if form == "while":
+            lines = ["while (" + lt3.txt + ") {"] + ["  " + l for st in body for l in st[0]] + ["}"]
+            return [init, (lines, G.sx("while", lt3.sx, G.sx("blk", *[st[1] for st in body])), False)]
+        if form == "do":
+            lines = ["do {"] + ["  " + l for st in body for l in st[0]] + ["} while (" + lt3.txt + ")"]
+            return [init, (lines, G.sx("do", G.sx("blk", *[st[1] for st in body]), lt3.sx), False)]
+        # do-while whose condition does the counting: do { … } while (++v < 3), v starting at 1
+        c = G.cmp_("le", G.incdec(True, True, v), G.num(3))
+        body = body_pre + body_post
+        lines = ["do {"] + ["  " + l for st in body for l in st[0]] + ["} while (" + c.txt + ")"]
+        return [_st(G.assign("set", v, G.num(1))), (lines, G.sx("do", G.sx("blk", *[st[1] for st in body]), c.sx), False)]
+    for form, kind, k in itertools.product(("for", "while", "do", "do-side"), ("continue", "break"), (1, 2, 3)):
+        body = loop(form, i, [_st_print([G.strlit("top"), i]), jump(kind, i, k)], [_st_print([G.strlit("bot"), i])])
+        body.append(_st_print([G.strlit("done"), i]))
+        # the same jump in the inner loop of a nest: the outer loop must be unaffected
+        inner = loop(form, j, [jump(kind, j, k)], [_st_print([i, j])])
+        body += loop("for", i, inner, [_st_print([G.strlit("outer"), i, j])])
+        out.append(_mk([_item("begin", body)], [], {"exhaustive-loops", kind, {"for": "for", "while": "while"}.get(form, "do")}))
+    return out
+
+
+def _st(e):
+    return ([e.at(G.P_ASSIGN)], G.sx("expr", e.sx), False)
+
+
+def _fn(name, params, stmts):
+    lines = []
+    for st in stmts:
+        lines += st[0]
+    f = G.Fn(name, params, None, None, False, 1, [], set(), set())
+    f.body_txt = ["function " + name + "(" + ", ".join(params) + ") {"] + ["  " + l for l in lines] + ["}"]
+    f.body_sx = G.sx("func", name, G.sx("params", *params), G.sx("blk", *[st[1] for st in stmts]))
+    return dict(kind="func", fn=f)
+
+
+def exhaustive_exit_in_function():
+    """driver_phases_status_last with the `exit expr` executed while user functions are active: call depth 1..3 x the
+    phase the chain is called from (BEGIN, main rule, END) x what a later END action does (nothing, bare `exit` — the
+    status must be kept —, `exit 5` — the status is replaced)"""
+    import itertools
+    out = []
+    for depth, phase, tail in itertools.product((1, 2, 3), ("begin", "rule", "end"), (None, "bare", 5)):
+        fns = [_fn("d1", ["c"], [(["exit c"], G.sx("exit", G.var("c").sx), True)])]
+        for lvl in range(2, depth + 1):
+            inner = G.call("d%d" % (lvl - 1), [G.binop("add", G.var("c"), G.num(1))])
+            fns.append(_fn("d%d" % lvl, ["c"], [_st(inner), _st_print([G.strlit("unreached")])]))
+        callst = _st(G.call("d%d" % depth, [G.num(3)]))
+        b = [_st_print([G.strlit("B")])] + ([callst] if phase == "begin" else [])
+        cnd = G.cmp_("eq", G.field(G.num(1)), G.strlit("d"))
+        m = ([(["if (" + cnd.txt + ") {", "  " + callst[0][0], "}"], G.sx("if", cnd.sx, G.sx("blk", callst[1]), G.sx("blk")), False)]
+             if phase == "rule" else []) + [_st_print([G.strlit("M"), G.field(G.num(0))])]
+        e1 = [_st_print([G.strlit("E1"), G.var("NR")])] + ([callst] if phase == "end" else [])
+        e2 = [_st_print([G.strlit("E2")])]
+        if tail == "bare":
+            e2.append((["exit"], G.sx("exit", "-"), True))
+        elif tail is not None:
+            e2.append((["exit %d" % tail], G.sx("exit", G.num(tail).sx), True))
+        items = fns + [_item("begin", b), _item("rule", m), _item("end", e1), _item("end", e2), _item("end", [_st_print([G.strlit("E3")])])]
+        out.append(_mk(items, [("f1.txt", "a\nd\nb\n")], {"exhaustive-exit-in-function", "exit-in-function", "call"}))
+    return out
+
+
+def exhaustive_refill():
+    """a container / variable refilled by the same builtin keeps nothing of its earlier contents: every ordered pair of
+    split() sources (three fields, empty literal, two fields, unset variable, field beyond NF, one field) into ONE array,
+    the array inspected after each call; the word-splitting rule over a file with empty lines (array reused across
+    records); sub/gsub repeatedly on one variable; `getline var` reused up to and beyond end of file"""
+    out = []
+
+    def sources():
+        return [G.strlit("a b c"), G.strlit(""), G.strlit("d f"), G.var("un"), G.field(G.binop("add", G.var("NF"), G.num(1))), G.strlit("x")]
+
+    def inspect(tag):
+        cnt = [_st(G.assign("set", G.var("c"), G.num(0))),
+               (["for (k in A) {", "  c++", "}"], G.sx("forin", "k", "A", G.sx("blk", G.sx("expr", G.incdec(False, True, G.var("c")).sx))), False)]
+        return cnt + [_st_print([G.strlit(tag), G.var("n"), G.var("c"), G.isin("A", [G.num(1)]), G.isin("A", [G.num(2)]), G.isin("A", [G.num(3)])]),
+                      _st_print([G.cat(G.idx("A", [G.num(1)]), G.strlit("|")), G.cat(G.idx("A", [G.num(2)]), G.strlit("|"))])]
+    for i in range(len(sources())):
+        body = []
+        for j in range(len(sources())):
+            body.append(_st(G.assign("set", G.var("n"), G.split_(sources()[i], "A"))))
+            body += inspect("first")
+            body.append(_st(G.assign("set", G.var("n"), G.split_(sources()[j], "A"))))
+            body += inspect("second")
+        out.append(_mk([_item("begin", body)], [], {"exhaustive-refill", "seq-split", "seq-split-empty", "split"}))
+    # the array reused across records, some of them empty
+    rule = [_st(G.assign("set", G.var("n"), G.split_(G.field(G.num(0)), "A")))] + inspect("rec")
+    endb = [_st(G.split_(G.strlit("x y z"), "B")), _st(G.split_(G.strlit(""), "B")), _st(G.assign("set", G.var("c"), G.num(0))),
+            (["for (k in B) {", "  c++", "}"], G.sx("forin", "k", "B", G.sx("blk", G.sx("expr", G.incdec(False, True, G.var("c")).sx))), False),
+            _st_print([G.var("c"), G.isin("B", [G.num(1)])])]
+    out.append(_mk([_item("rule", rule), _item("end", endb)], [("f1.txt", "a b c\n\nd f\n\n   \nf\n")], {"exhaustive-refill", "seq-split", "split"}))
+    # sub/gsub repeatedly on the same variable
+    body = [_st(G.assign("set", G.var("s"), G.strlit("aXbXcXd")))]
+    for glob, pat, rep in ((False, "X", "-"), (False, "X", "[&]"), (True, "X", ""), (True, "-", "&&"), (False, "q", "z"), (True, "a", "")):
+        body.append(_st(G.assign("set", G.var("n"), G.subst(glob, pat, G.strlit(rep), G.var("s")))))
+        body.append(_st_print([G.var("n"), G.var("s")]))
+    out.append(_mk([_item("begin", body)], [], {"exhaustive-refill", "seq-sub", "sub"}))
+    # getline var reused up to and beyond end of file, and after close
+    body = []
+    for k in range(4):
+        body.append(_st(G.assign("set", G.var("r"), G.getline(G.var("v"), G.strlit("e1.dat")))))
+        body.append(_st_print([G.var("r"), G.var("v")]))
+    body.append(_st(G.close_(G.strlit("e1.dat"))))
+    body.append(_st(G.assign("set", G.var("r"), G.getline(G.var("v"), G.strlit("e1.dat")))))
+    body.append(_st_print([G.var("r"), G.var("v")]))
+    c = _mk([_item("begin", body)], [], {"exhaustive-refill", "seq-getline-var", "getline"})
+    c["extra"] = [("e1.dat", "l1 x\n\nl3\n")]
+    out.append(c)
     return out
 
 
@@ -559,6 +769,7 @@ PROFILE_EXCLUSIONS = [
     "an uninitialised variable passed to a function that stores into it as an array — README.md 'Incompatibility with AWK / Parameter passing' (the generator creates arrays with split(\"\", A) first; the model answers ERR outside)",
     "numerals with leading zeros / 0x / 0b prefixes, fractions, exponents, inf/nan inside strings and input — README.md 'Numbers' (hawk reads 020 as octal) and the property's quantifier (canonical decimal numerals)",
     "strings starting with two sign characters used as numbers (\"--27\" + 0 is 27 in hawk: hawk_*chars_to_int/flt accept a run of signs; 0 in gawk/mawk) — not canonical numerals",
+    "strings starting with e/E/. used as numbers: hawk converts them along its floating-point path, so -\"e\" prints -0 (gawk/mawk 0) — the generator's alphabets contain no e/E",
     "index(s, \"\") — unspecified by POSIX (hawk: index(\"\", \"\") = 0, gawk/mawk 1)",
     "substr with a start below 0 — gawk and mawk disagree with each other (discarded by the oracle anyway)",
     "the truth value / comparison of a bare input-derived value in the MAIN profile — belongs to the separate field-comparison sub-profile",
@@ -568,7 +779,7 @@ PROFILE_EXCLUSIONS = [
     "no pipes, no RS changes, no ENVIRON/ARGV, no srand/rand/time, no floats that are not exactly representable integers",
 ]
 
-NONTRIVIAL = {"range", "getline", "getline-loop", "recursion", "NF=", "$=", "redir", "call", "forin", "sub", "split",
+NONTRIVIAL = {"exit-in-function", "seq-split", "seq-sub", "seq-getline-var", "range", "getline", "getline-loop", "recursion", "NF=", "$=", "redir", "call", "forin", "sub", "split",
               "exit-begin", "exit-main", "exit-end", "next", "FS=", "printf"}
 
 
@@ -599,7 +810,7 @@ def run(ctx):
             k = min(step, left)
             left -= k
             if what_ == "corpus":
-                cases = corpus
+                cases = corpus[n_ - left - k:n_ - left]
             else:
                 cases = [G.gen_case(rng, fieldcmp=(what_ == "fc")) for _ in range(k)]
             if what_ == "main" and not samples:
@@ -693,7 +904,7 @@ def run(ctx):
                 break
     judged = counts.get("ok", 0) + counts.get("violation", 0)
     return C.finish(ctx, [proof], total * 4, len(nontriv),
-                    "cases = corpus + small exhaustive sets (range rule over every begin/end truth sequence up to length 3 quick / 5 thorough; every exit placement in BEGIN x main x END; every comparison of an unset variable) + typed-generator programs x generated inputs (0-3 files, with/without trailing newline, empty lines/files, "
+                    "cases = corpus + small exhaustive sets (range rule over every begin/end truth sequence up to length 3 quick / 5 thorough; the same with an action that changes what the end pattern reads, over two files; every exit placement in BEGIN x main x END; `exit expr` inside user functions at call depth 1-3 from each phase x later bare exit / exit expr in END; every comparison of an unset variable; every ordered pair of split() sources into one array, split across records with empty lines, repeated sub/gsub and getline var on one variable; every loop form x continue/break x iteration, also nested; every pair (thorough: triple) of $k= / NF= / $0= operations on every record of a file with records of varying length; every 3-sequence of > / >> / printf > / close on one file) + typed-generator programs x generated inputs (0-3 files, with/without trailing newline, empty lines/files, "
                     "leading/trailing blanks, single-char FS variants); each case = 4 evaluations (hawk --classic, gawk --posix, mawk, Lean model); "
                     "oracle: hawk (stdout, exit status, written files) = agreed references; ties: model = agreed references, model = hawk; "
                     "distinct_nontrivial = distinct programs judged ok (all four agree) that use at least one of " + ",".join(sorted(NONTRIVIAL)),
